@@ -151,38 +151,76 @@ theorem dm_image_path_eq_matrix_path {α : Type} (mw mh : Nat) (m : Nat → Nat 
 
 /-! ## 2. the composed image round trip -/
 
-/-- module (column `i`, row `j`) of the reference symbol (C08) for the data codewords `d` -/
-def refModule (s : DMRef.Sym) (d : List Nat) : Nat → Nat → Bool := fun i j =>
-  DMRef.symbolModule s (DMRef.mappingBits s.mapRows s.mapCols (DMRef.codewords s d)) j i
+/-- module (column `i`, row `j`) of the symbol (C08 framing and placement) that carries the full codeword sequence
+    `full` (data + error codewords, possibly damaged) -/
+def symModule (s : DMRef.Sym) (full : List Nat) : Nat → Nat → Bool := fun i j =>
+  DMRef.symbolModule s (DMRef.mappingBits s.mapRows s.mapCols full) j i
+
+/-- … of the reference symbol for the data codewords `d` -/
+def refModule (s : DMRef.Sym) (d : List Nat) : Nat → Nat → Bool := symModule s (DMRef.codewords s d)
+
+theorem symModule_rows (s : DMRef.Sym) (full : List Nat) :
+    matrixRows s.cols s.rows (symModule s full) = DMRef.symbolOfCodewords s full := rfl
 
 theorem refModule_rows (s : DMRef.Sym) (d : List Nat) :
     matrixRows s.cols s.rows (refModule s d) = DMRef.symbolBits s d := rfl
 
-/-- the framing facts of Table 7 that make the reference symbol's corners what the reader expects -/
+/-- the framing facts of Table 7 that make the symbol's corners what the reader expects -/
 def frameOK (s : DMRef.Sym) : Bool :=
   decide (2 ≤ s.cols) && decide (1 ≤ s.rows) && decide ((s.rows - 1) % (s.regRows + 2) = s.regRows + 1) &&
   decide (1 < s.regCols + 2)
 
 theorem table7_frameOK : DMRef.table7.all frameOK = true := by decide
 
-/-- every reference symbol has the three finder facts: corner of the "L", second module of the top track light,
-    right end of the solid bottom row -/
-theorem refModule_finder (s : DMRef.Sym) (hs : s ∈ DMRef.table7) (d : List Nat) :
-    DMFinderFacts s.cols s.rows (refModule s d) := by
+/-- every symbol of the 30 sizes — whatever its codewords — has the three finder facts: corner of the "L", second
+    module of the top track light, right end of the solid bottom row -/
+theorem symModule_finder (s : DMRef.Sym) (hs : s ∈ DMRef.table7) (full : List Nat) :
+    DMFinderFacts s.cols s.rows (symModule s full) := by
   have h := List.all_eq_true.1 table7_frameOK s hs
   simp only [frameOK, Bool.and_eq_true, decide_eq_true_eq] at h
   obtain ⟨⟨⟨h1, h2⟩, h3⟩, h4⟩ := h
   refine ⟨h1, h2, ?_, ?_, ?_⟩
-  · simp [refModule, DMRef.symbolModule]
+  · simp [symModule, DMRef.symbolModule]
   · have : 1 % (s.regCols + 2) = 1 := Nat.mod_eq_of_lt h4
-    simp [refModule, DMRef.symbolModule, this]
-  · simp only [refModule, DMRef.symbolModule, h3, if_true]
+    simp [symModule, DMRef.symbolModule, this]
+  · simp only [symModule, DMRef.symbolModule, h3, if_true]
     split <;> rfl
 
-/-- the model of `DataMatrixReader.Decode(bitmap, {PURE_BARCODE})` after the renderer, with the C02 matrix decoder -/
-def dmImageDecode (s : DMRef.Sym) (d : List Nat) (reqW reqH : Int) : Except ReadFault (List Nat) :=
-  dmImagePath s.cols s.rows (refModule s d) reqW reqH
+theorem refModule_finder (s : DMRef.Sym) (hs : s ∈ DMRef.table7) (d : List Nat) :
+    DMFinderFacts s.cols s.rows (refModule s d) := symModule_finder s hs _
+
+/-- the model of `DataMatrixReader.Decode(bitmap, {PURE_BARCODE})` after the renderer, with the C02 matrix decoder,
+    for the symbol carrying the codeword sequence `full` -/
+def dmImageDecodeCw (s : DMRef.Sym) (full : List Nat) (reqW reqH : Int) : Except ReadFault (List Nat) :=
+  dmImagePath s.cols s.rows (symModule s full) reqW reqH
     (fun b => DMDec.decodeMatrix DMHighLevel.refTables (toGrid b))
+
+/-- … for the reference symbol of the data codewords `d` -/
+def dmImageDecode (s : DMRef.Sym) (d : List Nat) (reqW reqH : Int) : Except ReadFault (List Nat) :=
+  dmImageDecodeCw s (DMRef.codewords s d) reqW reqH
+
+/-- whatever a matrix-level theorem says about `Decoder.Decode` on the symbol that carries `full` — the clean round
+    trip, the error-tolerance theorems of C05 — holds of the image path of that symbol -/
+theorem dm_image_of_matrix_result (s : DMRef.Sym) (hs : s ∈ DMRef.table7) (full : List Nat) (want : List Nat)
+    (hsym : DMDec.decodeMatrix DMHighLevel.refTables
+      ⟨s.cols, s.rows, (DMRef.symbolOfCodewords s full).flatten.toArray⟩ = .ok want) (reqW reqH : Int) :
+    (40 ≤ dmOut s.cols s.rows reqW reqH reqW s.cols → 40 ≤ dmOut s.cols s.rows reqW reqH reqH s.rows →
+      dmImageDecodeCw s full reqW reqH = .ok want) ∧
+    ((∀ img, renderDM s.cols s.rows (symModule s full) reqW reqH = .ok img → WhiteSample img) →
+      dmImageDecodeCw s full reqW reqH = .ok want) ∧
+    (dmImageDecodeCw s full reqW reqH = .ok want ∨ dmImageDecodeCw s full reqW reqH = .error (.reader .notFound)) := by
+  obtain ⟨img, himg, ew, eh, hbig, hany⟩ := dm_image_path_eq_matrix_path s.cols s.rows (symModule s full) reqW reqH
+    (symModule_finder s hs full) (fun b => DMDec.decodeMatrix DMHighLevel.refTables (toGrid b))
+  have hdec : DMDec.decodeMatrix DMHighLevel.refTables
+      (toGrid { w := s.cols, h := s.rows, rows := matrixRows s.cols s.rows (symModule s full) }) = .ok want := by
+    simp only [toGrid, Int.toNat_natCast, symModule_rows]
+    exact hsym
+  simp only [hdec, liftRes] at hbig hany
+  refine ⟨?_, ?_, hany⟩
+  · intro a b
+    exact hbig (Or.inl ⟨by rw [ew]; exact a, by rw [eh]; exact b⟩)
+  · intro hwhite
+    exact hbig (Or.inr (hwhite img himg))
 
 /-- **`dm_image_pure_roundtrip`** — text → `EncodeHighLevel` (every mode, hint configuration, macro header, the real
     look-ahead up to float rounding) → reference symbol of any of the 30 sizes → `convertByteMatrixToBitMatrix` with
@@ -203,40 +241,34 @@ theorem dm_image_pure_roundtrip (syms : List DMHighLevel.SymbolInfo) (htab : DMH
       dmImageDecode p.1 cw reqW reqH = .ok msg) ∧
     ((∀ img, renderDM p.1.cols p.1.rows (refModule p.1 cw) reqW reqH = .ok img → WhiteSample img) →
       dmImageDecode p.1 cw reqW reqH = .ok msg) ∧
-    (dmImageDecode p.1 cw reqW reqH = .ok msg ∨ dmImageDecode p.1 cw reqW reqH = .error (.reader .notFound)) := by
-  have hsym := C02.dm_symbol_roundtrip syms htab la hla msg cfg cw hb h p hp hn
-  have hmem : p.1 ∈ DMRef.table7 := by
-    obtain ⟨s, i⟩ := p
-    exact (List.mem_zipIdx hp).2.2 ▸ List.getElem_mem _
-  have hf := refModule_finder p.1 hmem cw
-  obtain ⟨img, himg, hany, hbig⟩ := dm_extractPureBits_binarised p.1.cols p.1.rows (refModule p.1 cw) reqW reqH hf
-  obtain ⟨_, himg', ew, eh, _⟩ := renderDM_shows p.1.cols p.1.rows (refModule p.1 cw) reqW reqH
-    (by have := hf.cols; omega) hf.rows
-  rw [himg] at himg'; cases himg'
-  have hdec : DMDec.decodeMatrix DMHighLevel.refTables
-      (toGrid { w := p.1.cols, h := p.1.rows, rows := matrixRows p.1.cols p.1.rows (refModule p.1 cw) }) = .ok msg := by
-    simp only [toGrid, Int.toNat_natCast, refModule_rows]
-    exact hsym
-  have ok_of : ∀ bm, blackMatrix img = .ok bm →
-      DM.extractPureBits bm.rdGo bm = .ok { w := p.1.cols, h := p.1.rows, rows := matrixRows p.1.cols p.1.rows (refModule p.1 cw) } →
-      dmImageDecode p.1 cw reqW reqH = .ok msg := by
-    intro bm hbm hex
-    unfold dmImageDecode dmImagePath
-    rw [himg]
-    simp only [dmRead, hbm, hex, hdec]
-  refine ⟨?_, ?_, ?_⟩
-  · intro h1 h2
-    obtain ⟨bm, hbm, hex⟩ := hbig (Or.inl ⟨by rw [ew]; exact h1, by rw [eh]; exact h2⟩)
-    exact ok_of bm hbm hex
-  · intro hwhite
-    obtain ⟨bm, hbm, hex⟩ := hbig (Or.inr (hwhite img himg))
-    exact ok_of bm hbm hex
-  · rcases hany with hnf | ⟨bm, hbm, hex⟩
-    · right
-      unfold dmImageDecode dmImagePath
-      rw [himg]
-      simp only [dmRead, hnf]
-    · left; exact ok_of bm hbm hex
+    (dmImageDecode p.1 cw reqW reqH = .ok msg ∨ dmImageDecode p.1 cw reqW reqH = .error (.reader .notFound)) :=
+  dm_image_of_matrix_result p.1 (C08.zipIdx_mem_table7 p hp) (DMRef.codewords p.1 cw) msg
+    (C02.dm_symbol_roundtrip syms htab la hla msg cfg cw hb h p hp hn) reqW reqH
+
+/-- **the image of a DAMAGED symbol** (C05 at image level): the symbol carries a codeword sequence `raw` (bytes, the
+    symbol's total length) that differs from the written one in at most ⌊blkErr/2⌋ codewords of every interleaved
+    Reed-Solomon block; its rendering at any requested size, read in pure-barcode mode, still gives exactly the text
+    (40x40 pixels up, or a white sample), and in every case the text or the binariser's wrapped NotFound.  The finder
+    / clock modules are part of the framing, not of `raw`: module damage inside the finder is outside this statement. -/
+theorem dm_image_tolerates_block_errors (syms : List DMHighLevel.SymbolInfo) (htab : DMHighLevel.tableOK syms = true)
+    (la : DMHighLevel.LookAhead) (hla : DMHighLevel.LaFloatLike la) (msg : List Nat) (cfg : DMHighLevel.Cfg)
+    (cw : List Nat) (hb : ∀ x ∈ msg, x < 256) (h : DMHighLevel.encodeHL syms la msg cfg = .ok cw)
+    (p : DMRef.Sym × Nat) (hp : p ∈ DMRef.table7.zipIdx) (hn : cw.length = p.1.nData)
+    (raw : List Nat) (hl : raw.length = p.1.total) (hrb : ∀ x ∈ raw, x < 256)
+    (hdist : ∀ b, b < p.1.blocks →
+      2 * Properties.C04.hamming (DMProofs.blockOfStream p.1 (DMRef.codewords p.1 cw) b) (DMProofs.blockOfStream p.1 raw b) ≤ p.1.blkErr)
+    (reqW reqH : Int) :
+    (40 ≤ dmOut p.1.cols p.1.rows reqW reqH reqW p.1.cols → 40 ≤ dmOut p.1.cols p.1.rows reqW reqH reqH p.1.rows →
+      dmImageDecodeCw p.1 raw reqW reqH = .ok msg) ∧
+    ((∀ img, renderDM p.1.cols p.1.rows (symModule p.1 raw) reqW reqH = .ok img → WhiteSample img) →
+      dmImageDecodeCw p.1 raw reqW reqH = .ok msg) ∧
+    (dmImageDecodeCw p.1 raw reqW reqH = .ok msg ∨ dmImageDecodeCw p.1 raw reqW reqH = .error (.reader .notFound)) := by
+  have hcwb := DMHighLevel.encodeHL_bytes_all syms la msg cfg cw hb h
+  have hrt := C02.dm_roundtrip_real_lookahead syms htab la hla msg cfg cw hb h
+  refine dm_image_of_matrix_result p.1 (C08.zipIdx_mem_table7 p hp) raw msg ?_ reqW reqH
+  unfold DMDec.decodeMatrix
+  rw [DMProofs.decodeMatrixBytes_tolerates p hp cw hn hcwb raw hl hrb hdist]
+  exact hrt
 
 /-! ## non-vacuity -/
 
